@@ -420,3 +420,95 @@ theorem getBM16Child_childrenMsg (vr : Variant) (nodes : List OldNode) (mw id : 
     omega
 
 end Legacy
+
+/-! ### leaves -/
+
+namespace Legacy
+open LegacyWrite
+
+/-- the value bytes a node contributes to the leaves section -/
+def leafVal (vals : Array Bytes) (n : OldNode) : Bytes :=
+  match n.leaf with
+  | some k => vals.getD k []
+  | none => []
+
+abbrev isLeaf : OldNode → Bool := fun n => n.leaf.isSome
+
+theorem leavesMsg_eq (nodes : List OldNode) (vals : Array Bytes) :
+    leavesMsg nodes vals = initIndex (idsFrom isLeaf 0 nodes) 0 (nodes.flatMap (leafVal vals)) := rfl
+
+theorem flatMap_filter_nil {α : Type} (f : α → Bytes) (p : α → Bool) (h : ∀ a, p a = false → f a = [])
+    (l : List α) : l.flatMap f = (l.filter p).flatMap f := by
+  induction l with
+  | nil => rfl
+  | cons a l ih =>
+    rw [List.flatMap_cons, ih]
+    cases hp : p a
+    · rw [List.filter_cons_of_neg (by simp [hp]), h a hp, List.nil_append]
+    · rw [List.filter_cons_of_pos hp, List.flatMap_cons]
+
+theorem flatMap_fixed_slice {α : Type} (f : α → Bytes) (w : Nat) (l : List α)
+    (hf : ∀ a ∈ l, (f a).length = w) (k : Nat) (hk : k < l.length) :
+    k * w + w ≤ (l.flatMap f).length ∧ ((l.flatMap f).drop (k * w)).take w = f l[k] := by
+  induction l generalizing k with
+  | nil => simp at hk
+  | cons a l ih =>
+    have ha : (f a).length = w := hf a List.mem_cons_self
+    rw [List.flatMap_cons]
+    cases k with
+    | zero =>
+      simp only [Nat.zero_mul, Nat.zero_add, List.drop_zero, List.getElem_cons_zero,
+        List.length_append]
+      refine ⟨by omega, ?_⟩
+      rw [← ha, List.take_left]
+    | succ k =>
+      have hk' : k < l.length := by simp at hk; omega
+      obtain ⟨h1, h2⟩ := ih (fun x hx => hf x (List.mem_cons_of_mem _ hx)) k hk'
+      simp only [List.length_append, List.getElem_cons_succ]
+      refine ⟨by rw [ha, Nat.succ_mul]; omega, ?_⟩
+      rw [List.drop_append, List.drop_eq_nil_of_le (by rw [ha, Nat.succ_mul]; omega), List.nil_append,
+        ha, show (k + 1) * w - w = k * w by rw [Nat.succ_mul]; omega]
+      exact h2
+
+/-- `Base.GetBytes(id, w)` on the leaves section the writer wrote: the encoded value of the key
+    that ends at node `id` (all values of width `w`), any id of a node that is a leaf (also when it
+    is an inner node at the same time). -/
+theorem getBytes_leavesMsg (nodes : List OldNode) (vals : Array Bytes) (w id k : Nat)
+    (hid : id < nodes.length) (hleaf : nodes[id].leaf = some k)
+    (hw : ∀ n ∈ nodes, ∀ j, n.leaf = some j → (vals.getD j []).length = w) :
+    getBytes (leavesMsg nodes vals) id w = .ok (some (vals.getD k [])) := by
+  rw [leavesMsg_eq]
+  have hasc := idsFrom_asc isLeaf nodes 0
+  have hp : isLeaf nodes[id] = true := by simp [isLeaf, hleaf]
+  have hmem : id ∈ idsFrom isLeaf 0 nodes :=
+    (idsFrom_mem isLeaf nodes 0 id).mpr ⟨id, hid, by omega, hp⟩
+  have hrank := idsFrom_rank isLeaf nodes 0 id (by omega)
+  rw [Nat.zero_add] at hrank
+  have hk := filter_getElem_rank isLeaf nodes id hid hp
+  have hr := initIndex_rank hasc 0 (nodes.flatMap (leafVal vals)) id hmem
+  rw [hrank] at hr
+  unfold getBytes
+  simp only [hr, bind, Except.bind, pure, Except.pure, Bool.not_true, Bool.false_eq_true, if_false]
+  have helts : (initIndex (idsFrom isLeaf 0 nodes) 0 (nodes.flatMap (leafVal vals))).elts
+      = (nodes.filter isLeaf).flatMap (leafVal vals) := by
+    show nodes.flatMap (leafVal vals) = _
+    apply flatMap_filter_nil
+    intro a ha
+    unfold leafVal
+    cases hl : a.leaf with
+    | none => rfl
+    | some j => simp [isLeaf, hl] at ha
+  have hwid : ∀ a ∈ nodes.filter isLeaf, (leafVal vals a).length = w := by
+    intro a ha
+    obtain ⟨ham, hap⟩ := List.mem_filter.mp ha
+    unfold leafVal
+    cases hl : a.leaf with
+    | none => simp [isLeaf, hl] at hap
+    | some j => exact hw a ham j hl
+  obtain ⟨hklt, hkeq⟩ := List.getElem?_eq_some_iff.mp hk
+  obtain ⟨h1, h2⟩ := flatMap_fixed_slice (leafVal vals) w (nodes.filter isLeaf) hwid _ hklt
+  rw [helts, Nat.mul_comm w, Slim.sliceBytes_ok _ _ _ h1, h2, hkeq]
+  unfold leafVal
+  rw [hleaf]
+
+end Legacy
